@@ -32,6 +32,7 @@ StepIv(e) ==
   /\ prev' = iv /\ hasPrev' = TRUE /\ UNCHANGED <<zid, segFrom, offs>>
   /\ Check(WellFormedInterval(iv), "interval_nonempty_and_wall_is_standard_plus_savings")
   /\ Check(iv.wall >= offs[1] /\ iv.wall <= offs[2], "wall_offset_within_advertised_min_max")
+  /\ (Has(e, "fixed") => Check(iv.wall = e.fixed /\ iv.sav = 0 /\ iv.start = TMin /\ iv.end = TMax, "fixed_offset_zone_has_the_requested_offset"))
   /\ IF hasPrev
      THEN /\ Check(iv.start = prev.end, "intervals_abut_without_gap_or_overlap")
           /\ Check(~SameRules(prev, iv), "adjacent_intervals_differ")
